@@ -25,6 +25,7 @@ def run(rep, idx, tier):
     rep.require("C02.8", 3)
     rep.require("C02.9", 3)
     rep.require("C02.10", 8)
+    rep.require("C02.11", 2)
     thorough = tier == "thorough"
     mm = idx.find_class("MemoryMap")
     add_res = idx.find_func("MemoryMap.add_resource")
@@ -57,6 +58,8 @@ def run(rep, idx, tier):
     from .c19 import shared_state
     shared_state(rep, idx, rule="C02.10", classes=["MemoryMap", "_RangeMap", "_Namespace"])
     glue.param_refusals(rep, "C02.10", idx, only=["MemoryMap.__init__", "ResourceInfo.__init__"])
+    # ---- C02.11 no refusal beyond the documented ones (a legal placement is never rejected) ------------------------
+    legal_placements(rep, idx, "C02.11")
 
 
 def handover(rep, idx):
@@ -449,3 +452,23 @@ def query_coherence(rep, idx, rule="C02.10", only=None):
                     else:
                         rep.unk(rule, f.site, f"{cname}.{name}() keeps state in self.{attr}",
                                 "every mutator writes it too; whether that write invalidates the memo is not decided")
+
+
+def legal_placements(rep, idx, rule):
+    from . import glue
+    def bounds(a):
+        # the bounds test (mentions the map's address width) and the overlap query are documented refusals of their own
+        if a[0] == 'call' and a[1][0] == 'attr' and a[1][2] == 'overlaps':
+            return True
+        return any(x == ('attr', ('name', 'self'), '_addr_width') or x == ('attr', ('name', 'self'), 'addr_width') for x in ir.walk(a))
+    glue.arith_refusal_atoms(rep, rule, idx, "MemoryMap._compute_addr_range", ["addr % (1 << self.alignment) != 0"], allow_if=bounds,
+                             what="an explicit address is only required to be a multiple of the map's own alignment; sizes and bounds as documented")
+    glue.arith_refusal_atoms(rep, rule, idx, "MemoryMap.add_resource", ["addr % (1 << self.alignment) != 0"], allow_if=bounds,
+                             what="add_resource() adds no arithmetic refusal of its own")
+    glue.arith_refusal_atoms(rep, rule, idx, "MemoryMap.add_window",
+                             ["self.data_width % window.data_width != 0", "ratio & (ratio - 1) != 0",
+                              "(1 << window.alignment) < ratio",
+                              # the same two tests written on the dense ratio directly (under `if not sparse`)
+                              "(self.data_width // window.data_width) & ((self.data_width // window.data_width) - 1) != 0",
+                              "(1 << window.alignment) < (self.data_width // window.data_width)"],
+                             allow_if=bounds, what="add_window() refuses only non-integer / non-power-of-two ratios and windows aligned more finely than the ratio")
